@@ -122,4 +122,24 @@ inductive SameStream : Nat → List Ev → List Ev → Prop
   | stop (n p a b s t f) : hasLineEnding p = false → Chunking p a → Chunking p b →
       Stops s f → Stops t f → SameStream (n + 1) (a ++ s) (b ++ t)
 
+/-- the complete conversation of a successful handshake, one entry per write -/
+def expectedMsgs (uid : Nat) (fd : Bool) : List (List UInt8) :=
+  msgNul :: authLine (uidHex uid) :: ((if fd then [negLine] else []) ++ [beginLine])
+
+/-! ## data for the non-vacuity examples in Props/C17.lean -/
+
+def bytesOf (s : String) : List UInt8 := asciiBytes s.toList
+def allOk : Nat → Bool := fun _ => true
+
+/-- both replies arrive in pieces, then the first bytes of a message -/
+def scriptGood : List Ev :=
+  [.chunk (bytesOf "OK 12"), .chunk (bytesOf "34\r"), .chunk (bytesOf "\n"),
+   .chunk (bytesOf "AGREE_UNIX_FD\r\n"), .chunk (bytesOf "l...")]
+
+/-- a server that sends both replies at once -/
+def scriptPipelined : List Ev := [.chunk (bytesOf "OK 1234\r\nAGREE_UNIX_FD\r\n")]
+
+/-- a server whose first message bytes arrive in the same read as the last reply -/
+def scriptGlued : List Ev := [.chunk (bytesOf "OK\r\nl..."), .chunk (bytesOf "rest")]
+
 end Rustbus.Auth
